@@ -118,7 +118,8 @@ class Result:
 
 def schedule_digest(schedule: dict) -> str:
     s = {k: v for k, v in schedule.items() if k not in ("violation", "seed", "run_index", "batch_seed")}
-    return hashlib.sha256(json.dumps(s, sort_keys=True).encode()).hexdigest()[:16]
+    # insertion order is meaningful (declaration order of symbols, sensors, noise entries): do not sort keys
+    return hashlib.sha256(json.dumps(s).encode()).hexdigest()[:16]
 
 
 # --------------------------------------------------------------------------- timeouts
@@ -336,7 +337,7 @@ def write_replay(prop, schedule, violation) -> str:
     name = f"{schedule.get('seed', 0)}-{schedule_digest(schedule)}.json"
     path = os.path.join(d, name)
     with open(path, "w") as f:
-        json.dump(schedule, f, indent=1, sort_keys=True)
+        json.dump(schedule, f, indent=1)  # key order preserved: declaration order is part of the schedule
     return path
 
 
